@@ -103,7 +103,12 @@ def valueAttr (v : PVal) (a : String) : Option PVal :=
     else if a == "denominator" then some (.int 1)
     else if ["bit_length", "to_bytes", "conjugate"].contains a then some (.foreign 2)
     else none
-  | .bool _ => if ["bit_length", "to_bytes", "conjugate"].contains a then some (.foreign 2) else none
+  | .bool b =>
+    if a == "real" || a == "numerator" then some (.int (if b then 1 else 0))
+    else if a == "imag" then some (.int 0)
+    else if a == "denominator" then some (.int 1)
+    else if ["bit_length", "to_bytes", "conjugate"].contains a then some (.foreign 2)
+    else none
   | .list _ => if ["count", "index", "append", "pop", "copy", "sort"].contains a then some (.foreign 3) else none
   | .tuple _ => if ["count", "index"].contains a then some (.foreign 3) else none
   | .bytes _ => if ["decode", "hex", "upper", "lower", "strip"].contains a then some (.foreign 4) else none
@@ -288,6 +293,7 @@ def cT : Nat → PVal → ClassTable
             some (fun x => match x with | .missing => .ok (.bool false) | _ => .error .unmodelled)
           else if ft == "dictlist" then some (fun _ => .error .unmodelled)
           else none
+        | .foreign _ => some (fun _ => .error .unmodelled)
         | _ => none
       iter := fun c =>
         match c with
@@ -300,6 +306,7 @@ def cT : Nat → PVal → ClassTable
           some (.ok (((declaredFields rec).filter (fun f => wlComplete parts && f.2.1 == ".".intercalate parts)).map
             (fun f => .str f.1)))
         | .gen => some (.error .unmodelled)
+        | .foreign _ => some (.error .unmodelled)
         | .fval "dictlist" _ => some (.error .unmodelled)
         | _ => none }
 
@@ -441,6 +448,7 @@ def kwBool (kw : List (String × PVal)) (k : String) (dflt : Bool) : Except Err 
   | some _ => .error .unmodelled
 
 def callC (T : ClassTable) (_rec : PVal) (f : PVal) (args : List PVal) (kw : List (String × PVal)) : Except Err PVal :=
+  if (kw.lookup "**").isSome then .error .typeErr else
   match f, args with
   | .builtin "lower", [x] => if kw.isEmpty then lowerC x else .error .typeErr
   | .builtin "upper", [x] => if kw.isEmpty then upperC x else .error .typeErr
@@ -508,7 +516,7 @@ def getattrC (rec : PVal) (obj : PVal) (a : String) : Option PVal :=
   | .typeRoot => if wlComplete [a] || wlPrefix [a] then some (.tmatch [a] []) else some .missing
   | .tmatch parts attrs =>
     if wlComplete parts then
-      (if a.startsWith "_" then some .missing else some (.tmatch parts (attrs ++ [a])))
+      (if hasPrefix "_" a then some .missing else some (.tmatch parts (attrs ++ [a])))
     else if wlComplete (parts ++ [a]) || wlPrefix (parts ++ [a]) then some (.tmatch (parts ++ [a]) [])
     else some .missing
   | .missing => let _ := rec; none
@@ -521,10 +529,10 @@ def modattrC (obj : PVal) (part : String) : Except Err PVal :=
     -- instance/class attributes found by normal lookup shadow `__getattr__`
     if part == "path" then .ok (.str path)
     else if part == "gettypename" then .ok (.foreign 901)
-    else if part.startsWith "__" then .error .unmodelled
+    else if hasPrefix "__" part then .error .unmodelled
     else
       let full := if path.isEmpty then part else path ++ "." ++ part
-      if wlComplete (full.splitOn ".") || wlPrefix (full.splitOn ".") then .ok (.ftype full) else .error .attrErr
+      if wlComplete (splitDot full) || wlPrefix (splitDot full) then .ok (.ftype full) else .error .attrErr
   | .str _ => .error .attrErr
   | _ => .error .unmodelled
 
